@@ -92,6 +92,11 @@ def run(repo, res):
     for i, fld in enumerate(fields):
         a = rs[0].args[i] if i < len(rs[0].args) else next((k.value for k in rs[0].keywords if k.arg == fld), None)
         o = dv.origins(a) if a is not None else set()
+        if fld == "fit_object":
+            # the fit object is the ExpectationPropagation instance the moments were taken from (argument order irrelevant)
+            okf = len(o) == 1 and next(iter(o)).startswith("variational.ExpectationPropagation(") and dv.origins(ast.Name("fit_obj", ast.Load())) == o
+            res.require(okf, "R04.1", f"core.VariationalGammaMethod.run Results.{fld} comes from its producer", f"position {i} originates from {sorted(o)}, expected the ExpectationPropagation instance bound to fit_obj", repo.loc(run_v, rs[0]), "fit_obj")
+            continue
         res.require(o == {prod[fld]}, "R04.1", f"core.VariationalGammaMethod.run Results.{fld} comes from its producer", f"position {i} originates from {sorted(o)}, expected {prod[fld]}", repo.loc(run_v, rs[0]), prod[fld][:50])
     # node_posteriors()/mutation_posteriors() fill mean/variance from the same methods
     for meth, src in (("node_posteriors", "self.node_moments()"), ("mutation_posteriors", "self.mutation_moments()")):
